@@ -30,7 +30,7 @@ LATTICE = [0, 1, 2, 3]
 STAGE = st.fixed_dictionaries({
     "mode": st.sampled_from(["deferred", "deferred", "sync", "chained", "fired"]),      # fired: returns an already-fired Deferred
     "delay": st.sampled_from(LATTICE),
-    "result": st.sampled_from(["ok", "ok", "ok", "ok", "ok", "error", "fail", "skip", "error_falsy"]),   # error_falsy: an exception whose bool() is False
+    "result": st.sampled_from(["ok", "ok", "ok", "ok", "ok", "ok", "error", "fail", "skip", "error_falsy", "kbi"]),   # error_falsy: bool() is False; kbi: KeyboardInterrupt raised by user code
     "value": st.sampled_from([None, None, "Foo", 0, [], True]),       # what a successful stage returns / its Deferred fires with
     "expect": st.sampled_from([False] * 9 + [True]),                  # the stage records a failed expectThat
     "never": st.sampled_from([False] * 9 + [True]),
@@ -51,7 +51,7 @@ QUIET = st.fixed_dictionaries({
     "mode": st.sampled_from(["deferred", "deferred", "sync", "chained", "fired"]), "delay": st.sampled_from(LATTICE), "result": st.just("ok"),
     "value": st.sampled_from([None, "Foo", 0, []]), "expect": st.just(False),
     "never": st.just(False), "leave_call": st.none(), "log_err": st.just("no"), "drop_failed": st.just(False)})
-SINGLE_FAULT = st.sampled_from([("expect", True), ("result", "error"), ("result", "fail"), ("result", "skip"), ("result", "error_falsy"), ("result", "error"),
+SINGLE_FAULT = st.sampled_from([("expect", True), ("result", "kbi"), ("result", "error"), ("result", "fail"), ("result", "skip"), ("result", "error_falsy"), ("result", "error"),
                                 ("log_err", "one"), ("log_err", "two_flush_one"), ("drop_failed", True), ("leave_call", 5), ("never", True)])
 
 
@@ -88,6 +88,8 @@ def model(spec):
         stages["cleanup%d" % i] = c
     pending = ["setUp"]
     terminated = None
+    propagates = False          # user code raised KeyboardInterrupt: reported as an error and re-raised by run()
+    last_failed_cleanup = None
     setup_ok = True
     queue = ["setUp", "test", "tearDown"] + ["cleanup%d" % i for i in reversed(range(len(spec["cleanups"])))]
     idx = 0
@@ -128,9 +130,15 @@ def model(spec):
             tie = True
         t = fire
         if s["result"] != "ok":
-            bad.add({"error": "error", "error_falsy": "error", "fail": "failure", "skip": "skip"}[s["result"]])
+            bad.add({"error": "error", "error_falsy": "error", "fail": "failure", "skip": "skip", "kbi": "error"}[s["result"]])
+            if name.startswith("cleanup"):
+                last_failed_cleanup = s["result"]       # the runner keeps the last failing cleanup's exception (DESIGN 11.2)
+            elif s["result"] == "kbi":
+                propagates = True
             if name == "setUp":
                 setup_ok = False
+    if last_failed_cleanup == "kbi":
+        propagates = True
     if terminated:
         bad.add("error")
     end = t
@@ -141,7 +149,7 @@ def model(spec):
             tie = True
     if ti is not None and ti == end and not terminated:
         tie = True
-    return {"log": log, "bad": bad, "tie": tie, "end": end, "terminated": terminated}
+    return {"log": log, "bad": bad, "tie": tie, "end": end, "terminated": terminated, "propagates": propagates}
 
 
 _QUIET = [False]
@@ -199,6 +207,7 @@ def run_case(spec):
             def exc():
                 from vp.programs import FalsyError
                 return {"error": RuntimeError("stage-MARK"), "fail": case.failureException("stage-MARK"), "error_falsy": FalsyError("stage-MARK"),
+                        "kbi": KeyboardInterrupt("stage-MARK"),
                         "skip": case.skipException("stage-MARK")}[s["result"]]
             if s.get("expect"):
                 from testtools.matchers import Equals
@@ -234,7 +243,7 @@ def run_case(spec):
                         self.addCleanup(lambda i=i, c=c: act(self, "cleanup%d" % i, c))
                     else:
                         # positional and keyword arguments travel with the registration
-                        self.addCleanup(lambda name, stage=None: act(self, name, stage), "cleanup%d" % i, stage=c)
+                        self.addCleanup(lambda name, f=None: act(self, name, f), "cleanup%d" % i, f=c)     # 'f': a name Twisted's own helpers use
                 return act(self, "setUp", spec["setUp"])
 
             def test_it(self):
@@ -268,8 +277,10 @@ def run_case(spec):
             raised = e
         names = [e[0] for e in res.events]
         core = [n for n in names if n in ("startTest", "stopTest") or n in OUTCOMES]
-        if raised is not None:
+        if raised is not None and not (m["propagates"] and isinstance(raised, KeyboardInterrupt)):
             vs.append(V("run-raises", type(raised).__name__, "run() raised %r" % (raised,)))
+        if m["propagates"] and not m["terminated"] and not m["tie"] and raised is None:
+            vs.append(V("outcome", "interrupt-swallowed", "user code raised KeyboardInterrupt; run() returned normally (outcomes %r)" % ([e[0] for e in res.events if e[0] in OUTCOMES],)))
         if not (len(core) == 3 and core[0] == "startTest" and core[1] in OUTCOMES and core[2] == "stopTest"):
             vs.append(V("bracket", "shape", "events %r, expected startTest / one outcome / stopTest" % (core,)))
             out = None
